@@ -692,6 +692,17 @@ func runC05(tier string) *vf.Run {
 		nacks, pfails, skews := []int{2, K / 2, K - 1}, []int{1, P / 2, P - 1}, []int{K / 2, K - 2}
 		if !run.Thorough() {
 			nacks, pfails, skews = []int{K / 2}, []int{[]int{1, P / 2, P - 1}[i%3]}, []int{K / 2}
+			if sc.PackCnt > 1 {
+				// a batch of several packs: three consecutive calls, so that at least one rejected call is followed by
+				// a call of the same batch (a rejection in the middle of a batch differs from one at its end)
+				nacks = []int{K / 2, K/2 + 1, K/2 + 2}
+			}
+			if len(sc.Colls[0].PChannels) > 1 {
+				// the start positions of a multi-shard collection created while the service runs are written one by
+				// one: a failure / a crash between the first and the second leaves a partial set of checkpoints
+				pfails = append(pfails, 2)
+				cases = append(cases, &c05Case{Input: i, Sc: sc, Fault: c05Fault{Kind: "kill-before-put", N: 2}})
+			}
 		}
 		for _, k := range nacks {
 			cases = append(cases, &c05Case{Input: i, Sc: sc, Fault: c05Fault{Kind: "nack", N: max(2, k)}})
@@ -703,6 +714,18 @@ func runC05(tier string) *vf.Run {
 		for _, k := range skews {
 			cases = append(cases, &c05Case{Input: i, Sc: sc, Fault: c05Fault{Kind: "skew-kill", N: max(3, k), Round: 4}})
 		}
+	}
+	{
+		seen := map[string]bool{}
+		var uniq []*c05Case
+		for _, c := range cases {
+			k := fmt.Sprintf("%d/%s/%d/%d", c.Input, c.Fault.Kind, c.Fault.N, c.Fault.Round)
+			if !seen[k] {
+				seen[k] = true
+				uniq = append(uniq, c)
+			}
+		}
+		cases = uniq
 	}
 	if only := os.Getenv("C05_ONLY"); only != "" {
 		var sel []*c05Case
